@@ -185,6 +185,18 @@ class World:
         spec = self.spec
         if spec.objrepr == "dict":
             return {"__typename__": tname, "__id__": oid}
+        if spec.objrepr == "sdict":
+            # a plain dict holding the leaf values of the fields left to the
+            # default resolver; sparse: a null is as often a missing key
+            d = {"__typename__": tname, "__id__": oid}
+            for f in spec.objects[tname]["fields"]:
+                if spec.behaviours.get((tname, f)) == "default":
+                    v = self.field_value({"__id__": oid}, tname, f, {},
+                                         MAP_PATH, None)
+                    if v is None and zlib.crc32((oid + f).encode()) & 1:
+                        continue
+                    d[f] = v
+            return d
         if spec.objrepr == "map":
             return MapObj(self, tname, oid, [
                 f for f in spec.objects[tname]["fields"]
@@ -207,8 +219,10 @@ class World:
         if t[0] == "NN":
             return self.gen(t[1], idseed, path, nullable=False)
         h = H(self.seed, idseed)
-        if nullable and h % 8 == 0:
-            return None  # ordinary null in a nullable position
+        if nullable and (h % 8 == 0 or (path is MAP_PATH and h % 3 == 0)):
+            # ordinary null in a nullable position (more of them among the
+            # values a mapping-shaped parent stores)
+            return None
         if t[0] == "L":
             n = (h >> 3) % 5
             if (h >> 9) % 12 == 0:
